@@ -271,6 +271,26 @@ def g_mps_seg(rng):
     return psi.extract_segment(1, 4)
 
 
+@gen('mps_segment_first0', variants=3)
+def g_mps_seg0(rng, variant=0):
+    """segments starting at site 0 / covering exactly the unit cell / a single site"""
+    from tenpy.networks.mps import MPS
+    from tenpy.networks.site import SpinHalfSite
+    s = SpinHalfSite('Sz')
+    psi = MPS.from_singlets(s, 6, [(0, 3), (1, 2), (4, 5)], bc='infinite')
+    seg = psi.extract_segment(*[(0, 3), (0, 5), (0, 0)][variant % 3])
+    seg.test_sanity()
+    return seg
+
+
+@gen('mpo_segment', variants=3)
+def g_mpo_seg(rng, variant=0):
+    m = mk_model('tenpy.models.tf_ising.TFIChain', 0)       # infinite, L = 3
+    seg = m.H_MPO.extract_segment(*[(0, 2), (0, 4), (1, 3)][variant % 3])
+    seg.test_sanity()
+    return seg
+
+
 @gen('purification_mps', variants=2)
 def g_pur(rng, variant=0):
     from tenpy.networks.purification_mps import PurificationMPS
@@ -390,6 +410,53 @@ def g_lattice_segment(rng):
     return lat
 
 
+# segments of every lattice class: Lattice.extract_segment marks the copy with bc_MPS='segment' and the OPTIONAL attribute
+# segment_first_last = (first, last); the boundary values matter (first == 0 whenever the segment starts at the first
+# site, last == N_sites - 1, a single site first == last == 0)
+SEGMENT_MODES = ['finite:0..N-1', 'infinite:enlarge', 'infinite:defaults', 'first>0', 'first=0,last<N-1']
+
+
+def mk_segment_lattice(rng, name, variant=0):
+    mode = SEGMENT_MODES[variant % len(SEGMENT_MODES)]
+    if mode == 'finite:0..N-1':
+        lat = mk_lattice(name, 0)           # (a few classes exist only with infinite bc_MPS: same call)
+        return lat.extract_segment(0, lat.N_sites - 1)
+    lat = mk_lattice(name, 1)
+    if mode == 'infinite:enlarge':
+        if lat.bc_MPS != 'infinite':
+            return lat.extract_segment(first=0)
+        return lat.extract_segment(enlarge=int(rng.integers(2, 4)))
+    if mode == 'infinite:defaults':
+        return lat.extract_segment()
+    N = lat.N_sites
+    # (building the IrregularLattice of the cut fails inside tenpy for some classes/ranges - MultiSpeciesLattice beyond the
+    #  unit cell, nested IrregularLattice, HelicalLattice: constructing the ORIGINAL is not what C17 is about, take the
+    #  next candidate range; the last candidate always works)
+    if mode == 'first>0':                  # (becomes an IrregularLattice with the sites outside removed)
+        first = int(rng.integers(1, N)) if N > 1 else 0
+        last = int(rng.integers(first, 2 * N if lat.bc_MPS == 'infinite' else N))
+        cands = [(first, last), (first, min(last, N - 1)), (1, N - 1), (0, N - 1)]
+    else:                                  # first == 0 but sites removed at the end
+        cands = [(0, int(rng.integers(0, N - 1)) if N > 1 else 0), (0, max(N - 2, 0)), (0, N - 1)]
+    for i, (first, last) in enumerate(cands):
+        try:
+            seg = lat.extract_segment(first, last)
+            seg.test_sanity()
+            return seg
+        except Exception:
+            if i == len(cands) - 1:
+                raise
+
+
+for _n in LATTICES:
+    def _mks(rng, variant=0, _n=_n):
+        seg = mk_segment_lattice(rng, _n, variant)
+        assert seg.bc_MPS == 'segment' and hasattr(seg, 'segment_first_last')
+        seg.test_sanity()
+        return seg
+    gen('lattice_segment:' + _n, variants=len(SEGMENT_MODES))(_mks)
+
+
 @gen('lattice_disorder')
 def g_lattice_disorder(rng):
     from tenpy.models import lattice as L
@@ -462,6 +529,36 @@ for _full in MODEL_PARAMS:
         m.test_sanity()
         return m
     gen('model:' + _full, variants=2)(_mkm)
+
+
+# segment models (what the segment simulations store and reload): Model.extract_segment -> lattice segment, and for
+# MPOModel / NearestNeighborModel also the segment of H_MPO / H_bond
+MODEL_SEGMENTS = [
+    ('tenpy.models.tf_ising.TFIChain', 0, 'enlarge', 3), ('tenpy.models.tf_ising.TFIChain', 1, 'range', None),
+    ('tenpy.models.tf_ising.TFIModel', 1, 'enlarge', 2), ('tenpy.models.xxz_chain.XXZChain', 0, 'range', None),
+    ('tenpy.models.hubbard.FermiHubbardChain', 1, 'enlarge', 2), ('tenpy.models.spins.SpinModel', 0, 'range', None),
+    ('tenpy.models.xxz_chain.XXZChain', 1, 'defaults', None), ('tenpy.models.tf_ising.TFIChain', 0, 'first>0', None),
+    ('model_base:CouplingModel', 0, 'defaults', None), ('model_base:MPOModel', 0, 'range', None),
+    ('model_base:NearestNeighborModel', 0, 'range', None), ('model_base:Model', 0, 'range', None),
+]
+
+
+@gen('model_segment', variants=len(MODEL_SEGMENTS))
+def g_model_segment(rng, variant=0):
+    full, v, how, k = MODEL_SEGMENTS[variant % len(MODEL_SEGMENTS)]
+    m = GENERATORS[full](rng) if full.startswith('model_base:') else mk_model(full, v)
+    if how == 'enlarge':
+        seg = m.extract_segment(enlarge=k)
+    elif how == 'range':
+        seg = m.extract_segment(0, m.lat.N_sites - 1)
+    elif how == 'defaults':
+        seg = m.extract_segment()
+    else:
+        seg = m.extract_segment(1, m.lat.N_sites + 1)
+    assert seg.lat.bc_MPS == 'segment' and hasattr(seg.lat, 'segment_first_last')
+    if hasattr(seg, 'test_sanity'):
+        seg.test_sanity()
+    return seg
 
 
 @gen('model_base:Model')
